@@ -601,11 +601,20 @@ theorem C02_window_finds_inside (endRe body : Re) (hstar : starBody endRe = some
     v ∈ (extractRawWith endRe (decodedText (window
       (encodeUtf8 (joinLines ls ++ tagLine pre Generated.licenseTag blanks v pieces.flatten ['\n']) ++ more)))).lic := by
   obtain ⟨tailText, ht⟩ := decodedText_window_head _ more hcr hlen
+  -- the value of a well-formed tag line is not empty (`WFShape`: it begins with a character that is no blank), so the
+  -- filter of empty values keeps it
+  have hne : (!v.isEmpty) = true := by
+    unfold WFShape at hshape
+    simp only [Bool.and_eq_true] at hshape
+    have hh := hshape.1.1.1.2
+    cases v with
+    | nil => simp at hh
+    | cons c cs => rfl
   unfold extractRawWith
-  simp only [filterIgnore_none hign, mem_dedup]
+  simp only [filterIgnore_none hign, mem_dedup, List.mem_filter]
   rw [ht, List.append_assoc]
-  exact C02_tag_found_in_text endRe body hstar Generated.licenseTag (by decide) ls hfree pre blanks v tailText pieces hp
-    hshape hlast hs hf
+  exact ⟨C02_tag_found_in_text endRe body hstar Generated.licenseTag (by decide) ls hfree pre blanks v tailText pieces hp
+    hshape hlast hs hf, hne⟩
 
 /-- the hypotheses are satisfiable (two lines with multi-byte characters before the tag line, a
     truncated multi-byte sequence after it) -/
@@ -828,7 +837,7 @@ theorem C02_window_finds_line (l : InfoLine) (hok : l.ok Generated.endRe = true)
     (hU : U = [] ∨ ∃ u, U = u ++ ['\n']) (hUign : findSub Generated.ignoreStart U = none) (more : Bytes)
     (hcr : '\r' ∉ U ++ (l.text ++ ['\n']))
     (hlen : (encodeUtf8 (U ++ (l.text ++ ['\n']))).length ≤ 4096) :
-    (∀ v, l.licValue = some v →
+    (∀ v, l.licValue = some v → v ≠ [] →
       v ∈ (extractRaw (decodedText (window (encodeUtf8 (U ++ (l.text ++ ['\n'])) ++ more)))).lic) ∧
     (∀ v, l.conValue = some v →
       v ∈ (extractRaw (decodedText (window (encodeUtf8 (U ++ (l.text ++ ['\n'])) ++ more)))).con) ∧
@@ -842,19 +851,23 @@ theorem C02_window_finds_line (l : InfoLine) (hok : l.ok Generated.endRe = true)
     simp [List.append_assoc]
   rw [ht]
   unfold extractRaw extractRawWith
-  simp only [hfilter, mem_dedup]
-  refine ⟨fun v hv => ?_, fun v hv => ?_, fun n hn => ?_⟩
-  · cases l with
+  simp only [hfilter, mem_dedup, List.mem_filter]
+  refine ⟨fun v hv hne => ?_, fun v hv => ?_, fun n hn => ?_⟩
+  · have hkeep : (!v.isEmpty) = true := by
+      cases v with
+      | nil => exact absurd rfl hne
+      | cons c cs => rfl
+    cases l with
     | lic s =>
       simp only [InfoLine.licValue, Option.some.injEq] at hv
       subst hv
-      exact C02_tag_found_anywhere Generated.endRe C02_end_guarded Generated.licenseTag (by decide) (by decide +kernel) s
-        (C02L.tagLineFound_of_ok hlic) U _ hU
+      exact ⟨C02_tag_found_anywhere Generated.endRe C02_end_guarded Generated.licenseTag (by decide) (by decide +kernel) s
+        (C02L.tagLineFound_of_ok hlic) U _ hU, hkeep⟩
     | licF s ws =>
       simp only [InfoLine.licValue, Option.some.injEq] at hv
       subst hv
-      exact C02_framed_tag_found_anywhere Generated.endRe C02_end_guarded Generated.licenseTag (by decide)
-        (by decide +kernel) s ws hlic U _ hU
+      exact ⟨C02_framed_tag_found_anywhere Generated.endRe C02_end_guarded Generated.licenseTag (by decide)
+        (by decide +kernel) s ws hlic U _ hU, hkeep⟩
     | con s => cases hv
     | conF s ws => cases hv
     | cpr x y h pre trail => cases hv
